@@ -190,7 +190,8 @@ def reply_table(ctx: Ctx, chk) -> None:
 
 
 def _alloc_text(ctx: Ctx, f: FuncInfo) -> str:
-    stores = [n for n in ctx.own_nodes(f) if isinstance(n, ast.Assign) and any(isinstance(t, ast.Subscript) and norm(t.value) == "gateway.nodes" for t in n.targets)]
+    _cn0 = Canon(ctx.I, f)
+    stores = [n for n in ctx.own_nodes(f) if isinstance(n, ast.Assign) and any(isinstance(t, ast.Subscript) and _cn0.canon(t.value) == "gateway.nodes" for t in n.targets)]
     if len(stores) != 1:
         return "?"
     t = [t for t in stores[0].targets if isinstance(t, ast.Subscript)][0]
@@ -482,7 +483,8 @@ def dispatch1(ctx: Ctx, chk) -> None:
     chk.instance(rule)
     key = f"{listen.fq}::dispatch-before-yield"
     awaited = all(isinstance(ctx.prog.parents.get(c), ast.Await) for c in disp)
-    p = g.reach_avoiding(ln, lambda x: x in yn, lambda x: x in dn, labels_skip=("exc",))
+    # (`yield await handler(...)`: the statement that yields is the one that dispatches)
+    p = g.reach_avoiding(ln, lambda x: x in yn and x not in dn, lambda x: x in dn, labels_skip=("exc",))
     if disp and p is None and awaited:
         chk.ok(rule, key, "every path load -> yield runs the awaited handler dispatch", ctx.loc(listen, disp[0]))
     else:
